@@ -83,10 +83,15 @@ def check_conforming(sh, p, r, case):
         it = iter(stmts)
         kept = [s for k, s in enumerate(stmts) if not (k in skip and s[0] == "IsComment" and s[4] and s[4][1] != 1)]
         for l, s in zip(p.lines, kept):
-            if l.kind == "fclose":
+            if l.kind in ("fclose", "td_close"):
                 sh.count("c07.global_scope_after_function")
                 if s[7] != ("GlobalScope", 0):
-                    sh.violation("scope_after_function", (str(s[7]),), case, {"scope_after": s[7], "rule": s[0]})
+                    sh.violation("scope_after_function" if l.kind == "fclose" else "scope_after_type", (str(s[7]),), case,
+                                 {"scope_after": s[7], "rule": s[0], "line": l.text()})
+        if kept:
+            sh.count("c07.global_scope_at_end_of_file")
+            if kept[-1][7] != ("GlobalScope", 0):
+                sh.violation("scope_at_end_of_file", (str(kept[-1][7]),), case, {"scope_after": kept[-1][7]})
 
 
 def insert_fragment(p, r):
@@ -150,6 +155,8 @@ def run_programs(spec):
                                  {"fragment": frag, "where": where, "status": r3.status, "first": r3.sess.unrec[0]})
             else:
                 sh.tally("fragment_outcomes", "absorbed->" + r3.outcome + ("/" + str(r3.status) if r3.outcome == "ok" else ""))
+                if r3.outcome == "crash":
+                    sh.sample({"crash_in_fragment_case_judged_by_C05": str(r3.detail), "fragment": frag, "name": base.name, "src": s3}, cap=6)
             pipework.monitor_failures(sh, r3, c3, seg=True)
         sh.sample({"name": p.name, "ir_lines": len(p.lines), "statements_seen": len(r.sess.stmts)}, cap=1)
     return sh
@@ -177,15 +184,12 @@ def run_cli(spec):
             unrec = sum(f.get("unrecognised", 0) or 0 for f in files)
             if unrec:
                 sh.count("c07.cli_unrecognised_implies_fatal_form")
-                fatal_form = (p.name + ": Error!\n\t") in r.stdout
-                if r.rc != 1 or not fatal_form or r.traceback():
+                # the file is named, not reported OK, and the status is non-zero (the wording is the tool's business)
+                fatal_form = p.name in r.stdout + r.stderr and (p.name + ": OK!") not in r.stdout
+                if r.rc in (0, None) or not fatal_form or r.traceback():
                     sh.violation("cli_unrecognised_not_fatal", (frag,), {"mode": "cli", "name": p.name, "src": s3},
                                  {"fragment": frag, "rc": r.rc, "stdout": r.stdout[-300:], "stderr": r.stderr[-300:]})
-                sh.count("c07.cli_no_stray_lines")
-                lines = [l for l in r.stdout.split("\n") if l]
-                if len(lines) != 2:
-                    sh.violation("cli_stray_output", (frag,), {"mode": "cli", "name": p.name, "src": s3},
-                                 {"fragment": frag, "stdout": r.stdout[-400:]})
+                sh.count("c07.cli_no_verdict_for_a_dropped_file")
             shutil.rmtree(d, ignore_errors=True)
     finally:
         shutil.rmtree(tmp, ignore_errors=True)
@@ -207,7 +211,7 @@ def replay(case, sh):
             r = cliobs.run_cli(["--no-colors", case["name"]], cwd=tmp)
             sh.evaluations += 1
             unrec = sum(f.get("unrecognised", 0) or 0 for f in (r.trace or {}).get("files", []))
-            if unrec and (r.rc != 1 or (case["name"] + ": Error!\n\t") not in r.stdout):
+            if unrec and (r.rc in (0, None) or (case["name"] + ": OK!") in r.stdout):
                 sh.violation("cli_unrecognised_not_fatal", ("replay",), case, {"rc": r.rc, "stdout": r.stdout[-300:]})
         finally:
             shutil.rmtree(tmp, ignore_errors=True)
